@@ -563,7 +563,11 @@ def slotPut (cfg : Cfg) : Option Page → List Ev
 
 /-- `get_cache_buf` with libkdumpfile's `addrxlat_get_page` as the page source
 (reached through any number of pass-through records): reuse, or evict the LRU
-slot (`put_page`), fetch, and on failure leave the slot empty.  Returns the
+slot (`put_page`), fetch, and on failure leave the slot empty.  (The repaired
+code takes the least recently used slot that is not being filled by a get-page
+callback in progress; `addrxlat_get_page` never reads through the context it
+serves, so no slot is marked when a read starts and the choice is the LRU slot.
+The re-entrant case, with the `filling` marks, is `Kdf.Model.RCache`.)  Returns the
 outcome and the read cache afterwards (it changes on failure too). -/
 def getCacheBuf (cfg : Cfg) (pol : Policy) (rc : RdCache) (as addr : Nat) (pages : Nat → PageInfo)
     (orc : List Ext) : Out Policy × RdCache :=
